@@ -45,7 +45,54 @@ def run(tier):
     _bcde_run_compute(chk)
     _c_seed_formula(chk)
     _d_direction(chk)
+    _e_forwarding(chk)
     return chk
+
+
+PARAMS = ("step", "integration_fraction", "NN", "displacement", "method", "order", "dt", "energy_tol", "safe_distance")
+
+
+def _e_forwarding(chk):
+    """The configured tolerances, displacement and sampling reach the kernel that applies them: facade -> service -> _run_compute."""
+    fmod, fcls = ri.find_def("hiten.system.manifold", "Manifold")
+    syms = {p: sp.Symbol(p.upper()) for p in PARAMS}
+    syms["show_progress"] = sp.Symbol("SHOW")
+    got = []
+
+    def cm(**kw):
+        got.append(kw)
+        return sp.Symbol("RESULT")
+
+    man = SymObj(ClassRef(fmod, fcls), {"dynamics": SymObj(None, {"compute_manifold": cm}, "dynamics")}, "manifold")
+    ip = Interp()
+    out = ip.apply(ip.getattr(man, "compute"), [], dict(syms))
+    bad = [p for p in PARAMS if not got or got[0].get(p) != syms[p]]
+    chk.check(len(got) == 1 and not bad and out == sp.Symbol("RESULT"), "C12.e", "hiten.system.manifold::Manifold.compute[forwarding]",
+              f"options given to Manifold.compute do not reach the service under their own names: {bad} (got {got[:1]})",
+              sample="compute(step, integration_fraction, NN, displacement, method, order, dt, energy_tol=, safe_distance=) -> dynamics.compute_manifold(same)")
+    got.clear()
+    ip = Interp()
+    ip.apply(ip.getattr(man, "compute"), [], {})
+    d = got[0] if got else {}
+    chk.check(d.get("energy_tol") is not None and d.get("safe_distance") is not None and 0 < float(S(d["energy_tol"])) <= 1e-4 and float(S(d["safe_distance"])) >= 1.0,
+              "C12.e", "hiten.system.manifold::Manifold.compute[defaults]",
+              f"default retention guards are missing or vacuous: energy_tol={d.get('energy_tol')}, safe_distance={d.get('safe_distance')}",
+              sample=f"defaults energy_tol={d.get('energy_tol')}, safe_distance={d.get('safe_distance')}", nontrivial=False)
+    smod, scls = ri.find_def(MAN, "_ManifoldDynamicsService")
+    ran = []
+
+    def rc(**kw):
+        ran.append(kw)
+        return sp.Symbol("RUN")
+
+    svc = SymObj(ClassRef(smod, scls), {"_run_compute": rc, "make_key": lambda *a: ("key",) + tuple(a), "get_or_create": lambda key, factory: ip2.apply(factory, [], {}),
+                                        "orbit": sp.Symbol("ORBIT"), "stable": sp.Symbol("STABLE"), "direction": sp.Symbol("DIRN")}, "svc")
+    ip2 = Interp()
+    ip2.apply(ip2.getattr(svc, "compute_manifold"), [], dict(syms))
+    bad = [p for p in PARAMS if not ran or ran[0].get(p) != syms[p]]
+    chk.check(len(ran) == 1 and not bad, "C12.e", f"{MAN}::_ManifoldDynamicsService.compute_manifold[forwarding]",
+              f"options do not reach _run_compute under their own names: {bad}", sample="compute_manifold(**options) -> _run_compute(same)")
+    chk.count("functions partially evaluated", 3)
 
 
 # --------------------------------------------------------------------------- a
@@ -207,10 +254,17 @@ def _b_pipeline_orders(chk):
     for i in range(2):
         for j in range(3):
             V[i, j] = sp.Symbol(f"U{i}{j}")
-    rv, rvec = ip.apply(ip.getattr(pipe, "get_real_eigenvectors"), [V, vals], {})
-    ok = list(rv) == [vals[0], vals[2]] and rvec.shape == (2, 2) and list(rvec[:, 0]) == list(V[:, 0]) and list(rvec[:, 1]) == list(V[:, 2])
-    chk.check(ok, "C12.b", f"{LBASE}::StabilityPipeline.get_real_eigenvectors",
-              "real eigenvalues and the eigenvector columns are not selected by the same mask", sample="values[mask], vectors[:, mask]")
+    # Evaluated order-abstractly at representative multipliers: the hyperbolic multiplier r0 precedes the numerically split
+    # trivial one r1 (the order in which the eigen-solver lists them for every orbit of the pinned suite); NN = 1 then has to
+    # select the hyperbolic pair, for the stable (|r0| << |r1| < 1) and the unstable (|r0| >> |r1| > 1) list alike.
+    for label, rep in (("stable list", {sp.Symbol("r0", real=True): sp.Rational(1, 1500), sp.Symbol("r1", real=True): sp.Rational(99999, 100000)}),
+                       ("unstable list", {sp.Symbol("r0", real=True): sp.Integer(1500), sp.Symbol("r1", real=True): sp.Rational(100001, 100000)})):
+        ipr = Interp(decide=RegionDecider(rep))
+        rv, rvec = ipr.apply(ipr.getattr(pipe, "get_real_eigenvectors"), [V, vals], {})
+        ok = list(rv) == [vals[0], vals[2]] and rvec.shape == (2, 2) and list(rvec[:, 0]) == list(V[:, 0]) and list(rvec[:, 1]) == list(V[:, 2])
+        chk.check(ok, "C12.b", f"{LBASE}::StabilityPipeline.get_real_eigenvectors[{label}]",
+                  f"real eigenvalues and eigenvector columns are not selected by one mask in eigen-solver order (NN=1 must be the hyperbolic pair r0, not the split trivial pair r1): values {list(rv)}",
+                  sample=f"{label}: values[mask], vectors[:, mask]; first real pair = hyperbolic multiplier")
     chk.count("functions partially evaluated", 4)
 
 
